@@ -1,35 +1,35 @@
 #!/usr/bin/env python3
-"""Sensitivity run: revert each fix: commit in /repo's working tree (never committed), run the quick
-check(s) of the properties it belongs to, record whether a VIOLATION was printed, restore the tree.
-Usage: revert_sensitivity.py [D-id ...]   (default: all fixed findings)  -> /verif/seeded/reverts.json"""
-import json, os, subprocess, sys, time
-ROOT = os.path.dirname(os.path.dirname(os.path.abspath(__file__)))
+"""Sensitivity run: revert each fix: commit on a scratch worktree of /repo's HEAD (tools/isoenv.py; /repo itself is not
+touched), run the quick check(s) of the properties it belongs to with the same driver, record whether a VIOLATION was
+printed.  Usage: revert_sensitivity.py [D-id ...]   (default: all fixed findings)  -> /verif/seeded/reverts.json"""
+import json, os, sys, time
+sys.path.insert(0, os.path.dirname(os.path.abspath(__file__)))
+from isoenv import Env, ROOT, sh
+
 k = json.load(open(f'{ROOT}/known_findings.json'))['findings']
-want = set(sys.argv[1:])
+want = set(a for a in sys.argv[1:] if not a.startswith('--'))
+allprops = '--all-props' in sys.argv
 out_path = f'{ROOT}/seeded/reverts.json'
-os.makedirs(f'{ROOT}/seeded', exist_ok=True)
 res = json.load(open(out_path)) if os.path.exists(out_path) else {}
-def sh(*a, **kw):
-    return subprocess.run(a, capture_output=True, text=True, **kw)
-assert sh('git', '-C', '/repo', 'status', '--porcelain').stdout.strip() == '', '/repo not clean'
 for f in k:
     if f['status'] != 'fixed' or (want and f['id'] not in want):
         continue
-    r = sh('git', '-C', '/repo', 'revert', '--no-commit', f['commit'])
-    if r.returncode != 0:
-        sh('git', '-C', '/repo', 'revert', '--abort'); sh('git', '-C', '/repo', 'reset', '--hard', 'HEAD')
-        res[f['id']] = {'commit': f['commit'], 'result': 'revert conflicts with later fixes (not tested alone)'}
-        print(f['id'], 'conflict'); continue
-    entry = {'commit': f['commit'], 'checks': {}}
-    for p in f['properties'][:2]:
-        t0 = time.time()
-        c = sh(f'{ROOT}/check', p, cwd=ROOT)
-        lines = [l for l in c.stdout.splitlines() if l.startswith('VIOLATION') or l.startswith('  ') and 'kind=' in l]
-        entry['checks'][p] = {'exit': c.returncode, 'violation_lines': lines[:4], 'wall_s': round(time.time() - t0, 1)}
-        print(f['id'], p, 'exit', c.returncode, (lines[1][:200] if len(lines) > 1 else ''), flush=True)
-        if c.returncode == 1:
-            break
-    res[f['id']] = entry
-    sh('git', '-C', '/repo', 'revert', '--abort'); sh('git', '-C', '/repo', 'reset', '--hard', 'HEAD')
+    with Env() as ev:
+        r = sh('git', '-C', ev.repo, 'revert', '--no-commit', f['commit'])
+        if r.returncode != 0:
+            res[f['id']] = {'commit': f['commit'], 'note': 'revert conflicts with later fixes (not tested alone)'}
+            print(f['id'], 'conflict', flush=True)
+        else:
+            entry = {'commit': f['commit'], 'checks': {}}
+            for p in (f['properties'] if allprops else f['properties'][:2]):
+                t0 = time.time()
+                c, lines = ev.check(p)
+                entry['checks'][p] = {'exit': c.returncode, 'violation_lines': [l for l in lines if not l.startswith('KNOWN')][:4], 'wall_s': round(time.time() - t0, 1)}
+                if c.returncode not in (0, 1):
+                    entry['checks'][p]['tail'] = (c.stdout + c.stderr)[-1200:]
+                print(f['id'], p, 'exit', c.returncode, (lines[1][:200] if len(lines) > 1 else ''), flush=True)
+                if c.returncode == 1:
+                    break
+            res[f['id']] = entry
     json.dump(res, open(out_path, 'w'), indent=1)
 print('done')
